@@ -63,7 +63,7 @@ def gen_pda(rng, max_states=3, max_stack=3, max_trans=6, reserved=True):
     names = ["S:" + s for s in states] + ["G:" + g for g in stack]
     return {"states": states, "stack": stack, "inputs": inputs, "trans": trans, "start": states[0],
             "z0": stack[0], "finals": finals, "hash": assign_hashes(rng, sorted(names), mode), "hashmode": mode,
-            "ctor_tf": rng.chance(0.15), "ctor_eps": rng.pick([None, None, None, "str", "obj"])}
+            "ctor_tf": rng.chance(0.15), "ctor_eps": rng.pick([None, None, None, "str", "obj"]), "bulk": rng.chance(0.15)}
 
 
 def sv(case, s):
@@ -112,6 +112,10 @@ def build(case):
     pda = PDA(start_state=sv(case, case["start"]), start_stack_symbol=gv(case, case["z0"]),
               final_states={sv(case, s) for s in case["finals"]}, states={sv(case, s) for s in case["states"]},
               **({"input_symbols": _ctor_inputs(case)} if case.get("ctor_eps") else {}))
+    if case.get("bulk"):
+        pda.add_transitions([(sv(case, q), "epsilon" if a is None else a, gv(case, X), sv(case, r),
+                              [gv(case, y) for y in g]) for q, a, X, r, g in case["trans"]])
+        return pda
     for q, a, X, r, g in case["trans"]:
         pda.add_transition(sv(case, q), "epsilon" if a is None else a, gv(case, X), sv(case, r),
                            [gv(case, y) for y in g])
@@ -197,6 +201,8 @@ def shrink_pda(case):
         yield mk(ctor_tf=False)
     if case.get("ctor_eps"):
         yield mk(ctor_eps=None)
+    if case.get("bulk"):
+        yield mk(bulk=False)
     if case.get("hash"):
         ident = {n: i for i, n in enumerate(sorted(case["hash"]))}
         if ident != case["hash"]:
